@@ -17,6 +17,7 @@ ID = "C19"
 LEVEL = "exploration"
 RULE = (
     "Hypothesis draws molecules (1..200 atoms, all elements, small / wide / negative coordinates), "
+    "effective core charges equal to or smaller than the atomic numbers (pseudopotentials), "
     "charge and spin settings (absent, integer, fractional away from .5 ties, derived from "
     "orbitals), every run type (incl. upper case and ones a program lacks), lot / basis set or "
     "absent, default template or a random user template using any subset of fields, custom "
@@ -47,6 +48,8 @@ case = st.fixed_dictionaries(
         "charge": st.sampled_from([None, 0, 1, -1, 2, 0.9999999, -0.6, 0.4, 1.6, -2.4, 3.0]),
         "spinpol": st.sampled_from([None, 0, 1, 2, 3, 0.9999999, 1.4, 2.6]),
         "with_mo": st.sampled_from([False, False, False, True]),
+        # effective core charges smaller than the atomic numbers (pseudopotentials, ghost atoms)
+        "ecp": st.sampled_from([False, False, True]),
         "run_type": st.sampled_from([None, "energy", "energy_force", "opt", "scan", "freq", "OPT", "Freq", "bogus"]),
         "lot": st.sampled_from([None, "b3lyp", "MP2", "ccsd(t)"]),
         "obasis_name": st.sampled_from([None, "def2-svp", "6-31G*"]),
@@ -74,11 +77,18 @@ def build(spec):
         if spec[key] is not None:
             kwargs[key] = spec[key]
     charge, spinpol = spec["charge"], spec["spinpol"]
+    core = kwargs["atnums"].astype(float)
+    if spec.get("ecp"):
+        # the charge of the molecule is (sum of the core charges) - (number of electrons)
+        removed = np.minimum(core, rng.choice([0.0, 2.0, 10.0, 28.0], size=natom))
+        removed[int(rng.integers(natom))] = min(core[0], 2.0) if natom == 1 else removed[int(rng.integers(natom))]
+        core = core - removed
+        kwargs["atcorenums"] = core
     if spec["with_mo"]:
         occs = np.array([2.0, 2.0, 1.0, 1.0, 0.0])
         kwargs["mo"] = MolecularOrbitals("restricted", 5, 5, occs=occs)
         spinpol = 2.0
-        charge = float(kwargs["atnums"].sum() - 6.0)
+        charge = float(core.sum() - 6.0)
     else:
         if charge is not None:
             kwargs["charge"] = charge
